@@ -1,6 +1,6 @@
 (** The descriptions of the zoo (the derived types the harness
     instantiates) are well-formed, so the generic theorems apply to them. *)
-From Coq Require Import NArith ZArith List Bool Lia ZifyN ZifyBool.
+From Coq Require Import NArith ZArith List Bool Lia ZifyN ZifyBool Sorted.
 From RsM Require Import Model.Tlv Model.TlvDerive Proofs.TlvFacts Proofs.TlvDeriveFacts.
 Import ListNotations.
 Open Scope N_scope.
@@ -13,14 +13,15 @@ Ltac wf_zoo :=
          | |- _ /\ _ => split
          | |- True => exact I
          | |- NoDup _ => nodup
+         | |- _ = true -> _ => intros _
+         | |- StronglySorted _ _ => repeat constructor; lia
          | |- Forall _ _ => repeat constructor; lia
          | |- _ = _ => reflexivity
          | |- _ < _ => lia
          end.
 
-(** every zoo type except 7 ([assume_ordered]) and 9 (naked enum), which
-    are covered by the correspondence run and, for 9, by [derive_naked_roundtrip] *)
+(** every zoo type except 9 (naked enum, covered by [derive_naked_roundtrip]) *)
 Example zoo_wf :
   Forall (fun i => match zoo i with Some d => wf_dty d | None => False end)
-    [0; 1; 2; 3; 4; 5; 6; 8; 10; 11; 12; 13; 14; 15; 16; 17; 20; 21; 22; 23; 24].
+    [0; 1; 2; 3; 4; 5; 6; 7; 8; 10; 11; 12; 13; 14; 15; 16; 17; 20; 21; 22; 23; 24].
 Proof. repeat (apply Forall_cons; [wf_zoo|]). apply Forall_nil. Qed.
